@@ -579,10 +579,10 @@ func (h *c20Hist) observe(ok bool) string {
 	}
 	// quiescence first: the ticker goroutine runs its first update pass inline, so after Cleanup it may still be
 	// working (or not even have started); update passes it spawned end by themselves
-	var ticker, upd int
+	var ticker, passes int
 	for i := 0; i < 4000; i++ {
-		ticker, upd = diskPluginGoroutines()
-		if ticker-h.baseline == want && upd == 0 {
+		ticker, passes = diskPluginGoroutines()
+		if ticker-h.baseline == want && passes == 0 {
 			break
 		}
 		time.Sleep(10 * time.Millisecond)
